@@ -35,6 +35,12 @@ def raw_array(spec):
         a.reshape(-1)[0] = 1
     elif kind == "pos":
         a = (0.5 + g.random(shape)).astype(dt)
+    elif kind == "mask":  # a 0/positive pattern: exact zeros (a singular diagonal, a mask, a projector's spectrum)
+        a = (0.5 + g.random(shape)).astype(dt)
+        a.reshape(-1)[1::2] = 0
+    elif kind == "tiny":  # round-off-level entries of either sign next to O(1) ones (eigenvalues of a rank-deficient matrix)
+        a = (0.5 + g.random(shape)).astype(dt)
+        a.reshape(-1)[0::3] = (np.asarray([1e-17, -2e-16, 3e-18] * (a.size // 9 + 1))[:len(a.reshape(-1)[0::3])]).astype(dt)
     elif kind == "perm":
         a = g.permutation(shape[0]).astype(np.int64)
     elif kind == "perm_neg":  # a permutation whose larger entries are written NumPy-style from the end (-1 is the last row)
@@ -168,7 +174,7 @@ class Builder:
             return ops.Triangular(A, lower=lower)
         if k == "diag":
             d = self.array({"shape": [r["n"]], "dtype": r.get("dtype", "f8"), "seed": r.get("seed", 0),
-                            "kind": "pos" if r.get("pos", True) else "normal", **_lay(r)})
+                            "kind": r.get("vals") or ("pos" if r.get("pos", True) else "normal"), **_lay(r)})
             return ops.Diagonal(d)
         if k == "identity":
             return ops.Identity((r["n"], r.get("m", r["n"])), DT[r.get("dtype", "f8")])
